@@ -338,6 +338,7 @@ class Evaluator:
         s.loops: list = []                 # loop summaries (iter, targets, carried-env)
         s.mutations: list = []
         s.opaque_fns: set = set()          # {(module short, function name)} kept as uninterpreted functions
+        s.opaque_classes: set = set()      # class names whose instances stay atoms
         s.assume_finite = True             # np.isfinite(x) folds to True (recorded by the rules as an assumption)
         s.raises: list = []                # pruned raise branches: guard, polarity, exception name, path condition
         s._pc: list = []
@@ -346,7 +347,7 @@ class Evaluator:
     def fresh(s):
         """evaluator with the same configuration but none of the facts / stores learnt while evaluating code (used for specifications)"""
         e = Evaluator(s.prog, s.real, s._init_facts, s.depth_limit)
-        e.opaque_fns = set(s.opaque_fns); e.assume_finite = s.assume_finite
+        e.opaque_fns = set(s.opaque_fns); e.opaque_classes = set(s.opaque_classes); e.assume_finite = s.assume_finite
         return e
 
     def learn(s, g, polarity: bool, exc=None, top=True):
@@ -939,6 +940,8 @@ class Evaluator:
 
     def construct(s, ref: Ref, args, kw, depth):
         m, cls = ref.mod, ref.node
+        if cls.name in getattr(s, 'opaque_classes', ()):
+            return Poly.atom(('call', ('cls', cls.name), tuple(tkey(a) for a in args), tuple(sorted((k, tkey(v)) for k, v in kw.items()))))
         init = s.prog.find_member(m, cls, '__init__')
         if s.prog.is_dataclass(cls) or any(s.prog.is_dataclass(c) for _, c in s.prog.mro(m, cls)):
             fields = s.prog.dataclass_fields(m, cls)
